@@ -682,6 +682,11 @@ func init() {
 		return mkInt(int64(strings.Index(concStr(in, a[0], "Index"), concStr(in, a[1], "Index"))))
 	})
 
+	// debug dumps (JSON rendering of resources for log lines)
+	for _, n := range []string{"dumpResource", "dumpClusterResources", "dumpConfig"} {
+		reg("go.universe.tf/metallb/internal/k8s/controllers."+n, func(in *Interp, fr *frame, a []Value) Value { return "" })
+	}
+
 	// ---- os
 	reg("os.Getenv", func(in *Interp, fr *frame, a []Value) Value { return "" })
 	reg("os.LookupEnv", func(in *Interp, fr *frame, a []Value) Value { return Tuple{"", tFalse} })
